@@ -90,3 +90,26 @@ Example C14_example :
   default_filter [73;109;97;103;101;80;111;115;105;116;105;111;110;80;97;116;105;101;110;116]%N = false /\
   default_filter [69;99;104;111;84;105;109;101]%N = false.
 Proof. vm_compute. repeat split. Qed.
+
+(** "nothing else": adding include patterns never removes a key that was kept before *)
+Theorem C14_more_includes_remove_no_more : forall (matches : str -> str -> bool) de di xe xi xi' key, de <> [] -> di <> [] ->
+  cli_filter matches de di xe (xi ++ xi') key = true -> cli_filter matches de di xe xi key = true.
+Proof. exact cli_filter_more_incl. Qed.
+
+(** adding exclude patterns never keeps a key that was removed before *)
+Theorem C14_more_excludes_remove_no_less : forall (matches : str -> str -> bool) de di xe xe' xi key, de <> [] -> di <> [] ->
+  cli_filter matches de di xe xi key = true -> cli_filter matches de di (xe ++ xe') xi key = true.
+Proof. exact cli_filter_more_excl. Qed.
+
+(** a key that no exclude pattern (default or extra) matches is kept, whatever the include lists are *)
+Theorem C14_unmatched_key_kept : forall (matches : str -> str -> bool) de di xe xi key, de <> [] -> di <> [] ->
+  (forall e, In e de \/ In e xe -> matches e key = false) -> cli_filter matches de di xe xi key = false.
+Proof. exact cli_filter_unmatched_kept. Qed.
+
+(** non-vacuity of the three statements above on the shipped default lists with plain-literal matching:
+    "EchoTime" is matched by no default exclude pattern; adding the include "Name" rescues "PatientName" *)
+Example C14_mono_example :
+  cli_filter literal_matches default_key_excl_res default_key_incl_res [] [] [80;97;116;105;101;110;116;78;97;109;101]%N = true /\
+  cli_filter literal_matches default_key_excl_res default_key_incl_res [] [[78;97;109;101]%N] [80;97;116;105;101;110;116;78;97;109;101]%N = false /\
+  forallb (fun e => negb (literal_matches e [69;99;104;111;84;105;109;101]%N)) default_key_excl_res = true.
+Proof. split; [vm_compute; reflexivity | split; [vm_compute; reflexivity | vm_compute; reflexivity]]. Qed.
